@@ -572,3 +572,89 @@ def render_pdf(case):
     if case.get('keep_pdf'):
         verdict['pdf'] = pdf.decode('latin-1')
     return verdict
+
+
+# ------------------------------------------------------------------- resource naming over a forest of streams
+
+def res_direct(case):
+    """case: dict(ops=[[sid, kind, ...]]) on a root Stream and the streams it creates.  Returns the resolved call list
+    (names chosen by index are replaced by the real names) and, per Stream, what was read back."""
+    import pydyf
+    root, _ = _new_stream(False, [])
+    streams = [root]
+    resdicts = [root._resources]
+
+    def add(stream):
+        streams.append(stream)
+        if not any(stream._resources is r for r in resdicts):
+            resdicts.append(stream._resources)
+
+    resolved = []
+    for op in case['ops']:
+        sid, kind = op[0], op[1]
+        if sid >= len(streams):
+            continue
+        s = streams[sid]
+        if kind == 'alpha':
+            v = ALPHAS[op[2]]
+            s.set_alpha(v[0], stroke=op[3], fill=not op[3])
+            resolved.append([sid, 'alpha', v[1], v[2], op[3]])
+        elif kind == 'state':
+            s.set_blend_mode('Multiply')
+            resolved.append([sid, 'state'])
+        elif kind == 'alphastate':
+            add(s.set_alpha_state(0, 0, 1, 1))
+            resolved.append([sid, 'alphastate'])
+        elif kind == 'group':
+            add(s.add_group(0, 0, 1, 1))
+            resolved.append([sid, 'group'])
+        elif kind == 'pattern':
+            from weasyprint.matrix import Matrix
+            add(s.add_pattern(0, 0, 1, 1, 1, 1, Matrix()))
+            resolved.append([sid, 'pattern'])
+        elif kind == 'shading':
+            s.add_shading(2, 'RGB', (0, 1), (0, 0, 1, 1), True, pydyf.Dictionary())
+            resolved.append([sid, 'shading'])
+        elif kind == 'image':
+            s.add_image(SimpleNamespace(id=str(op[2])), op[3], 1)
+            resolved.append([sid, 'image', op[2], bool(op[3])])
+        elif kind == 'clone':
+            add(s.clone())
+            resolved.append([sid, 'clone'])
+        elif kind in ('draw', 'shade', 'patcolor'):
+            cat = {'draw': 'XObject', 'shade': 'Shading', 'patcolor': 'Pattern'}[kind]
+            keys = list(s._resources[cat].keys())
+            if not keys:
+                continue
+            name = keys[op[2] % len(keys)]
+            _use_name(s, kind, name)
+            resolved.append([sid, kind, name])
+        elif kind == 'raw':                      # a name that may not be defined on that stream
+            _use_name(s, op[2], op[3])
+            resolved.append([sid, op[2], op[3]])
+    out = []
+    for s in streams:
+        rid = [i for i, r in enumerate(resdicts) if r is s._resources][0]
+        names = []
+        for item in s.stream:
+            if isinstance(item, str):
+                item = item.encode()
+            if not isinstance(item, bytes):
+                continue
+            parts = item.split()
+            if parts and parts[-1] in (b'Do', b'sh', b'gs') or (parts and parts[-1] in (b'scn', b'SCN') and parts[0].startswith(b'/')):
+                names.append([parts[-1].decode(), parts[0][1:].decode()])
+        r = s._resources
+        out.append({'rid': rid, 'names': names, 'gs': list(r['ExtGState'].keys()), 'xo': list(r['XObject'].keys()),
+                    'pat': list(r['Pattern'].keys()), 'sh': list(r['Shading'].keys())})
+    return {'calls': resolved, 'streams': out}
+
+
+def _use_name(s, kind, name):
+    if kind == 'draw':
+        s.draw_x_object(name)
+    elif kind == 'shade':
+        s.paint_shading(name)
+    else:
+        s.set_color_space('Pattern')
+        s.set_color_special(name)
